@@ -39,7 +39,12 @@ func NewBinaryProtoFunc() erpc.ProtoFunc {
 			name:      "thrift-binary",
 			rwCounter: utils.NewReadWriteCounter(rw),
 		}
-		p.tProtocol = thrift.NewTHeaderProtocol(&BaseTTransport{
+		// Reading (Unpack, under unpackLock) and writing (Pack, under packLock) run
+		// concurrently: each direction has its own protocol and transport state.
+		p.rProtocol = thrift.NewTHeaderProtocol(&BaseTTransport{
+			ReadWriteCounter: p.rwCounter,
+		})
+		p.wProtocol = thrift.NewTHeaderProtocol(&BaseTTransport{
 			ReadWriteCounter: p.rwCounter,
 		})
 		return p
@@ -48,7 +53,8 @@ func NewBinaryProtoFunc() erpc.ProtoFunc {
 
 type tBinaryProto struct {
 	rwCounter  *utils.ReadWriteCounter
-	tProtocol  *thrift.THeaderProtocol
+	rProtocol  *thrift.THeaderProtocol // used by Unpack only
+	wProtocol  *thrift.THeaderProtocol // used by Pack only
 	packLock   sync.Mutex
 	unpackLock sync.Mutex
 	name       string
@@ -65,7 +71,7 @@ func (t *tBinaryProto) Version() (byte, string) {
 func (t *tBinaryProto) Pack(m erpc.Message) error {
 	err := t.binaryPack(m)
 	if err != nil {
-		t.tProtocol.Transport().Close()
+		t.wProtocol.Transport().Close()
 	}
 	return err
 }
@@ -73,7 +79,7 @@ func (t *tBinaryProto) Pack(m erpc.Message) error {
 func (t *tBinaryProto) Unpack(m erpc.Message) error {
 	err := t.binaryUnpack(m)
 	if err != nil {
-		t.tProtocol.Transport().Close()
+		t.rProtocol.Transport().Close()
 	}
 	return err
 }
@@ -94,24 +100,24 @@ func (t *tBinaryProto) binaryPack(m erpc.Message) error {
 	defer t.packLock.Unlock()
 	t.rwCounter.WriteCounter.Zero()
 
-	if err := writeMessageBegin(t.tProtocol, m); err != nil {
+	if err := writeMessageBegin(t.wProtocol, m); err != nil {
 		return err
 	}
 
-	if err = t.tProtocol.WriteBinary(bodyBytes); err != nil {
+	if err = t.wProtocol.WriteBinary(bodyBytes); err != nil {
 		return err
 	}
 
-	t.tProtocol.ClearWriteHeaders()
-	t.tProtocol.SetWriteHeader(HeaderStatus, m.Status(true).QueryString())
-	t.tProtocol.SetWriteHeader(HeaderMeta, goutil.BytesToString(m.Meta().QueryString()))
-	t.tProtocol.SetWriteHeader(HeaderBodyCodec, string(m.BodyCodec()))
-	t.tProtocol.SetWriteHeader(HeaderXferPipe, goutil.BytesToString(m.XferPipe().IDs()))
+	t.wProtocol.ClearWriteHeaders()
+	t.wProtocol.SetWriteHeader(HeaderStatus, m.Status(true).QueryString())
+	t.wProtocol.SetWriteHeader(HeaderMeta, goutil.BytesToString(m.Meta().QueryString()))
+	t.wProtocol.SetWriteHeader(HeaderBodyCodec, string(m.BodyCodec()))
+	t.wProtocol.SetWriteHeader(HeaderXferPipe, goutil.BytesToString(m.XferPipe().IDs()))
 
-	if err = t.tProtocol.WriteMessageEnd(); err != nil {
+	if err = t.wProtocol.WriteMessageEnd(); err != nil {
 		return err
 	}
-	if err = t.tProtocol.Flush(m.Context()); err != nil {
+	if err = t.wProtocol.Flush(m.Context()); err != nil {
 		return err
 	}
 
@@ -121,22 +127,22 @@ func (t *tBinaryProto) binaryPack(m erpc.Message) error {
 func (t *tBinaryProto) binaryUnpack(m erpc.Message) error {
 	t.unpackLock.Lock()
 	defer t.unpackLock.Unlock()
-	t.rwCounter.WriteCounter.Zero()
+	t.rwCounter.ReadCounter.Zero()
 
-	err := readMessageBegin(t.tProtocol, m)
+	err := readMessageBegin(t.rProtocol, m)
 	if err != nil {
 		return err
 	}
 
-	bodyBytes, err := t.tProtocol.ReadBinary()
+	bodyBytes, err := t.rProtocol.ReadBinary()
 	if err != nil {
 		return err
 	}
-	if err = t.tProtocol.ReadMessageEnd(); err != nil {
+	if err = t.rProtocol.ReadMessageEnd(); err != nil {
 		return err
 	}
 
-	headers := t.tProtocol.GetReadHeaders()
+	headers := t.rProtocol.GetReadHeaders()
 	m.Status(true).DecodeQuery(goutil.StringToBytes(headers[HeaderStatus]))
 	m.Meta().Parse(headers[HeaderMeta])
 	if codecID := headers[HeaderBodyCodec]; codecID != "" {
